@@ -155,6 +155,12 @@ fn hash_cases(b: &Base) -> Vec<Case> {
         let a = get_u64(&p["main_page"][i]["address"]);
         p["main_page"][i]["address"] = hexu(a + 1);
         push(format!("cell[{}].address+1", i), "cell-address", p);
+        // the same address plus a high power of two (differs only above the low 32 / 64 bits)
+        for (tag, hi) in [("2^32", Felt::from(1u64 << 32)), ("2^64", crate::kit::b2f(&crate::kit::pow2(64))), ("2^250", crate::kit::b2f(&crate::kit::pow2(250)))] {
+            let mut p = b.pi.clone();
+            p["main_page"][i]["address"] = Value::String(fhex(&(fu(a) + hi)));
+            push(format!("cell[{}].address+{}", i, tag), "cell-address-high", p);
+        }
         let mut p = b.pi.clone();
         let v = Felt::from_hex(p["main_page"][i]["value"].as_str().unwrap()).unwrap();
         p["main_page"][i]["value"] = Value::String(fhex(&(v + Felt::ONE)));
